@@ -182,6 +182,9 @@ impl Visit for Dump {
   fn visit_getter_prop(&mut self, n: &GetterProp) {
     self.fn_scope(n);
   }
+  fn visit_static_block(&mut self, n: &StaticBlock) {
+    self.fn_scope(n);
+  }
   fn visit_setter_prop(&mut self, n: &SetterProp) {
     self.fn_scope(n);
   }
